@@ -685,6 +685,7 @@ class System:
                 del [self._g.attrs["rails"][self._g[c]._params["name"]]]
                 self._g.remove_node(c)
         # delete node
+        old_rail = self._g.attrs["rails"][name]
         self._g.remove_node(eidx)
         del [self._g.attrs["nodes"][name]]
         del [self._g.attrs["phase_conf"][name]]
@@ -693,8 +694,16 @@ class System:
         # restore links between new parent and childs, unless deleted
         if not del_childs:
             if childs[eidx] != -1:
+                pname = self._g[parents[eidx][0]]._params["name"]
                 for c in childs[eidx]:
                     self._g.add_edge(parents[eidx][0], c, None)
+                    # the child now hangs on the deleted component's parent: keep its declared input order current
+                    pn = []
+                    for p in self._g.attrs["pnames"][c]:
+                        p = pname if (p == name or (old_rail != "" and p == old_rail)) else p
+                        if self._get_index(p) not in [self._get_index(q) for q in pn]:
+                            pn += [p]
+                    self._g.attrs["pnames"][c] = pn
 
     def tree(self, name=""):
         """Print the tree structure of the system.
